@@ -12,7 +12,7 @@ use serde::{Deserialize, Serialize};
 use serde_json::json;
 use std::str::FromStr;
 
-pub const RULE: &str = "enumerated: every secret length 0..=60 in five alphabets (ASCII, multi-byte UTF-8, NUL bytes, trailing CR LF, leading blank + trailing LF) x capacities M in {0,1,3,4,5,8,20,44,64,100} (construction succeeds iff len <= M-4, never for M<4, else KeyTooLongError; never panics), every calendar day of the years 1, 4, 999, 1000, 1900, 2000, 2024, 9999 (thorough) or their month ends and leap days (quick); generated: random secrets (<= 40 bytes), dates in years 1-9999, region/service strings incl. empty and non-ASCII. Consecutive derivations on one thread: after a derivation, one whose region/service boundary has moved (with or without a slash), whose components are exchanged, or in which one of secret/date/region/service differs; and all of it again while a logger renders records down to TRACE level. Oracle: as_ref() returns the secret put in; kDate/kRegion/kService/kSigning equal the model's own HMAC-SHA256 chain byte for byte; all ten shortcut paths agree with the step-by-step one. Non-trivial: secret length != 40, or non-ASCII secret, or year < 1000, or leap day, or empty/non-ASCII region or service; distinct by (secret, date, region, service).";
+pub const RULE: &str = "enumerated: every secret length 0..=60 in five alphabets (and lengths 61-130 and within 48 of 256, 512, 1024, 4096, 65536, plus 10^4, 10^5, 2^20) (ASCII, multi-byte UTF-8, NUL bytes, trailing CR LF, leading blank + trailing LF) x capacities M in {0,1,3,4,5,8,20,44,64,100} (construction succeeds iff len <= M-4, never for M<4, else KeyTooLongError; never panics), every calendar day of the years 1, 4, 999, 1000, 1900, 2000, 2024, 9999 (thorough) or their month ends and leap days (quick); generated: random secrets (<= 40 bytes), dates in years 1-9999, region/service strings incl. empty and non-ASCII. Consecutive derivations on one thread: after a derivation, one whose region/service boundary has moved (with or without a slash), whose components are exchanged, or in which one of secret/date/region/service differs; and all of it again while a logger renders records down to TRACE level. Oracle: as_ref() returns the secret put in; kDate/kRegion/kService/kSigning equal the model's own HMAC-SHA256 chain byte for byte; all ten shortcut paths agree with the step-by-step one. Non-trivial: secret length != 40, or non-ASCII secret, or year < 1000, or leap day, or empty/non-ASCII region or service; distinct by (secret, date, region, service).";
 
 #[derive(Clone, Debug, Serialize, Deserialize)]
 pub struct Derive {
@@ -234,6 +234,19 @@ pub fn cap_list(_t: Tier) -> Vec<Cap> {
                 out.push(Cap { trace: false, secret: s.clone(), capacity: c });
             }
         }
+    }
+    // far beyond any capacity: around the sizes at which a narrower length field would wrap (2^8, 2^9, 2^10, 2^12, 2^16)
+    let around = |n: usize| (n.saturating_sub(48)..=n + 48).collect::<Vec<usize>>();
+    let mut big: Vec<usize> = (61..=130).collect();
+    for n in [256usize, 512, 1024, 4096, 65_536] {
+        big.extend(around(n));
+    }
+    big.extend([300, 1000, 10_000, 100_000, 1 << 20]);
+    for n in big {
+        for c in [0usize, 4, 44, 100] {
+            out.push(Cap { trace: false, secret: "k".repeat(n), capacity: c });
+        }
+        out.push(Cap { trace: false, secret: "é".repeat(n / 2), capacity: 44 });
     }
     out
 }
